@@ -36,7 +36,8 @@ def random_choice_runs(rep, n):
                 harvest.VER[0] = rnd.choice([1, 2])
                 # an override outside the defaults (also a float, unless this variant checks that a arrives as an int)
                 if long_:
-                    over = {"a": [4 + step, 40 + step]}
+                    # (every third run brings a non-integral choice into a column that held integers so far)
+                    over = {"a": [4 + step + (0.5 if (step % 3 == 2 and not w.mixed) else 0), 40 + step]}
                 else:
                     over = {"a": [rnd.choice([7, 8] if w.mixed else [7.5, 8, 7.5])]} if rnd.random() < 0.4 else None
                 import contextlib, io
